@@ -81,6 +81,7 @@ type Worker struct {
 	consts    map[*ssa.Const]value
 	fninfo    map[*ssa.Function]*fnInfo
 	pools     map[*value]*poolState
+	builders  map[*value]string // strings.Builder contents by builder address
 	observes  []observation
 	curPos    token.Pos
 	callStack []*ssa.Function
@@ -634,6 +635,7 @@ func (w *Worker) resetPath() {
 	w.depth = 0
 	w.globals = map[*ssa.Global]*value{}
 	w.pools = map[*value]*poolState{}
+	w.builders = map[*value]string{}
 	w.observes = w.observes[:0]
 	w.callStack = w.callStack[:0]
 	w.pcSat = true
